@@ -287,10 +287,15 @@ def run_walk(seed, steps):
             done.append(op if ok else '-' + op)
             if op in ('copy', 'roundtrip'):
                 pass                # the earlier public objects stay in `derived`
-        E = bytes(b.k)
-        secrets.update(secret_octets(E))
-        ks, pr = split_tpk(E)
-        fpr = ks[0]['k']['fpr']
+        try:
+            E = bytes(b.k)
+            secrets.update(secret_octets(E))
+            ks, pr = split_tpk(E)
+            fpr = ks[0]['k']['fpr']
+        except Exception as ex:
+            problems.append('after %s the private key no longer exports as a packet sequence: %s %s' % (done[-1], type(ex).__name__, str(ex)[:40]))
+            out.append({'case': dict(case, ops=list(done), step=i), 'problems': problems[:4], 'nontrivial': True, 'n': 0, 'secrets': len(secrets)})
+            break
         fresh = b.k.pubkey
         examine_public(fresh, secrets, 'fresh twin', problems, private_struct=ks[0], other_ik=b.other_ik, fingerprint=fpr)
         n = 1
